@@ -70,6 +70,34 @@ def run(ctx, repo, tier):
         fn = src(call.func).split(".")[-1]
         arg = _count_arg(call)
         txt = cn.text(arg).replace(" ", "") if arg is not None else None
+        is4d = any(b_.name == "SphereGrid4Dim" for b_ in c.mro())
+        if is4d and fn != "get_half_of_hypercube" and fn in ("get_nodes",):
+            # a 4-D polytope grid that selects its half itself instead of asking the polytope for the canonical half
+            from ..astutil import hemisphere_predicates as _hp
+            preds = _hp(repo)
+            body_txt = src(fi.node)
+            used_preds = [p_ for p_ in preds if p_ + "(" in body_txt]
+            rets = [r for r in ast.walk(fi.node) if isinstance(r, ast.Return) and r.value is not None]
+            via_super = any("super()._gen_grid()" in src(r.value) for r in rets)
+            helpers = [n.func.id for n in ast.walk(fi.node) if isinstance(n, ast.Call) and isinstance(n.func, ast.Name) and
+                       repo.resolve_name(fi.module, n.func.id) is not None and n.func.id not in preds]
+            wrong = None
+            for h_ in helpers:
+                r_ = repo.resolve_name(fi.module, h_)
+                if r_ and r_[0] == "func" and any(isinstance(x, ast.Call) and src(x.func).split(".")[-1] == "argmax" and "abs" in src(x) for x in ast.walk(r_[1].node)):
+                    wrong = (h_, "the 'leading' component is taken as the one of LARGEST magnitude (argmax of |q|), the canonical half is defined by the "
+                                 "FIRST non-zero component")
+            if wrong is None and not via_super and any(isinstance(n, ast.UnaryOp) and isinstance(n.op, ast.Invert) for n in ast.walk(fi.node)):
+                wrong = ("~mask", "the second half of the array is the complementary selection in its OWN index order, not the negatives of the first "
+                                  "half row by row: row N+i is not -row i")
+            ctx.instance("LEN")
+            if wrong is not None:
+                ctx.violate("LEN", tag, f"{c.name} builds its half / double cover itself: {wrong[1]}", fi.where, wrong[0],
+                            witness="canonical half and row pairing are guaranteed only by get_half_of_hypercube + SphereGrid4Dim._gen_grid")
+            else:
+                ctx.inconclusive("LEN", tag, f"{c.name} selects the rotation half itself instead of using the polytope's canonical half", fi.where,
+                                 witness=f"predicates used: {used_preds}; double cover through super()._gen_grid(): {via_super}")
+            continue
         if c.name.startswith("FullDiv"):
             # complete subdivision levels only: every node of the level (N is validated against the admissible sizes in __init__)
             init = c.methods.get("__init__")
